@@ -184,6 +184,7 @@ def run_one(tape: Any, cfg: Dict[str, Any], forbid: FrozenSet[str] = frozenset()
         _fault.clear()
         if fired:
             w.probe('disk_fault')
+            w.stats['fault:disk_%s_error' % fault_kind] += fired
             nontrivial = True
         # ---- oracle -----------------------------------------------------------------------------------------
         outcomes = []
